@@ -87,6 +87,14 @@ class Sx:
     def xor(self, x, y):
         return self.b(x) != self.b(y)
 
+    def le(self, a, b):
+        """a <= b (exact here; with a rounding allowance in concrete mode)."""
+        return a <= b
+
+    def eqb(self, a, b):
+        """a == b as a boolean (exact here; approximate in concrete mode)."""
+        return a == b
+
     def claim_eq(self, name, a, b):
         return core.claim_eq(name, a, b)
 
@@ -164,6 +172,14 @@ class Cx:
 
     def xor(self, x, y):
         return bool(x) != bool(y)
+
+    def le(self, a, b):
+        a, b = float(a), float(b)
+        return a <= b + self.rtol * max(1.0, abs(a), abs(b))
+
+    def eqb(self, a, b):
+        a, b = float(a), float(b)
+        return abs(a - b) <= self.rtol * max(1.0, abs(a), abs(b))
 
     def claim_eq(self, name, a, b):
         a, b = float(a), float(b)
@@ -455,6 +471,59 @@ def _replay_crosshair(path, call):
     if "REPLAY FAIL" in out:
         return True, out.strip()[-300:]
     return False, out.strip()[-300:]
+
+
+def run_z3_enum(name, lo, hi, fn, describe=None, bounds="", functions=()):
+    """Finite-domain obligation: z3 enumerates every integer model of lo <= i < hi (blocking clauses until unsat);
+    ``fn(i)`` runs the real code natively and returns (ok, detail).  The solver's final ``unsat`` certifies that the
+    enumeration is exhaustive."""
+    import z3
+
+    t0 = time.time()
+    i = z3.Int("i")
+    s = z3.Solver()
+    s.add(i >= lo, i < hi)
+    seen, bad, nq = [], [], 0
+    while True:
+        nq += 1
+        r = s.check()
+        if str(r) != "sat":
+            break
+        v = s.model()[i].as_long()
+        seen.append(v)
+        try:
+            ok, detail = fn(v)
+        except Exception as ex:  # noqa: BLE001
+            ok, detail = False, "%s: %s" % (type(ex).__name__, ex)
+        if not ok:
+            bad.append((v, detail))
+        s.add(i != v)
+    exhaustive = str(r) == "unsat" and sorted(seen) == list(range(lo, hi))
+    res = dict(name=name, engine="z3-enumeration", bounds=bounds, functions=list(functions), stubs=[], paths=len(seen), queries=nq, solver_s=0.0,
+               claims={}, violations=[], unreproduced=[], inconclusive=[], harness_errors=[], vacuous=False, n_claims=len(seen), validated=len(seen))
+    for v in seen:
+        nm = "entry[%d]%s" % (v, (":" + describe(v)) if describe else "")
+        failed = [d for (b, d) in bad if b == v]
+        res["claims"][nm] = dict(held=int(not failed), violated=int(bool(failed)), inconclusive=0, solver_s=0.0)
+        if failed:
+            # replay: run the native check once more
+            try:
+                ok2, d2 = fn(v)
+            except Exception as ex:  # noqa: BLE001
+                ok2, d2 = False, "%s: %s" % (type(ex).__name__, ex)
+            if not ok2:
+                os.makedirs(REPLAY, exist_ok=True)
+                rp = os.path.join(REPLAY, re.sub(r"[^A-Za-z0-9_.-]+", "_", "%s__%s" % (name, nm))[:150] + ".json")
+                json.dump(dict(obligation=name, claim=nm, witness=dict(i=v), detail=d2), open(rp, "w"), indent=1)
+                res["violations"].append(dict(claim=nm, witness=dict(i=v), detail=str(d2)[:300], replay=rp))
+            else:
+                res["unreproduced"].append(dict(claim=nm, witness=dict(i=v), detail=str(failed[0])[:200]))
+    if not exhaustive:
+        res["harness_errors"].append("enumeration not exhaustive: solver said %s after %d models" % (r, len(seen)))
+    res["samples"] = [dict(index=v, entry=(describe(v) if describe else None), verdict="held" if v not in [b for b, _ in bad] else "violated") for v in seen[:3]]
+    res["exhaustive"] = exhaustive
+    res["wall_s"] = round(time.time() - t0, 2)
+    return res
 
 
 # ----------------------------------------------------------------------------- property runner
